@@ -20,7 +20,8 @@ theorem Plain.toC {p : Policy} (h : Plain p) : PlainC p := ⟨h.noUnsafe, h.noRa
 def FromTokenC (p : Policy) (t k : Token) : Prop :=
   FromToken p t k ∨ (k.tt = .comment ∧ t.tt = .comment ∧ k.data = t.data ∧ p.allowComments = true)
 
-theorem emit_toksC {p : Policy} (hp : PlainC p) {st : LoopState} {t : Token} (hwf : TokWF t)
+theorem emit_toksOn {p : Policy} (hu : p.allowUnsafe = false) {st : LoopState} {t : Token}
+    (hraw : isRawTagName t.data = true → allowsElement p t.data = false) (hwf : TokWF t)
     {ws : List Write} (he : Emit p st t ws) :
     ∃ toks : List Token, ws.map (·.data) = toks.map Token.render ∧ ∀ k ∈ toks, SegOKC k ∧ FromTokenC p t k := by
   cases he with
@@ -38,9 +39,9 @@ theorem emit_toksC {p : Policy} (hp : PlainC p) {st : LoopState} {t : Token} (hw
     have hnr : isRawTagName t.data = false := by
       cases h : isRawTagName t.data with
       | false => rfl
-      | true => rw [hp.noRaw _ h] at hall; cases hall
+      | true => rw [hraw h] at hall; cases hall
     have hnss : isScriptOrStyle t.data = false := by
-      simpa [hp.noUnsafe] using hss
+      simpa [hu] using hss
     refine ⟨[{ t with attrs := attrs }], by simp, ?_⟩
     intro k hk; simp at hk; subst hk
     rcases htt with h | h
@@ -60,7 +61,7 @@ theorem emit_toksC {p : Policy} (hp : PlainC p) {st : LoopState} {t : Token} (hw
     have hw : NameOK' t.data ∧ t.attrs = [] := by
       unfold TokWF at hwf; rw [htt] at hwf; exact hwf
     have hnss : isScriptOrStyle t.data = false := by
-      simpa [hp.noUnsafe] using hss
+      simpa [hu] using hss
     refine ⟨[t], by simp, ?_⟩
     intro k hk; simp at hk; subst hk
     have hseg : SegOK k := by unfold SegOK; simp only [htt]; exact hw
@@ -69,7 +70,12 @@ theorem emit_toksC {p : Policy} (hp : PlainC p) {st : LoopState} {t : Token} (hw
     refine ⟨[⟨.text, t.data, []⟩], by simp [Token.render, htt], ?_⟩
     intro k hk; simp at hk; subst hk
     exact ⟨.inl (by simp [SegOK]), .inl ⟨by simp [SegOK], .inl ⟨rfl, .inr ⟨htt, rfl⟩⟩⟩⟩
-  | rawText _ hun _ => rw [hp.noUnsafe] at hun; cases hun
+  | rawText _ hun _ => rw [hu] at hun; cases hun
+
+theorem emit_toksC {p : Policy} (hp : PlainC p) {st : LoopState} {t : Token} (hwf : TokWF t)
+    {ws : List Write} (he : Emit p st t ws) :
+    ∃ toks : List Token, ws.map (·.data) = toks.map Token.render ∧ ∀ k ∈ toks, SegOKC k ∧ FromTokenC p t k :=
+  emit_toksOn hp.noUnsafe (hp.noRaw t.data) hwf he
 
 theorem run_toksC {p : Policy} (hp : PlainC p) (ts : List Token) (hwf : ∀ t ∈ ts, TokWF t) :
     ∀ st, ∃ toks : List Token, (p.run st ts).1.map (·.data) = toks.map Token.render ∧
@@ -100,6 +106,51 @@ theorem sanitizeTokens_roundtripC {p : Policy} (hp : PlainC p) (ts : List Token)
       tokenize (p.sanitizeTokens ts) = coalesce [] (toks.map reread) ∧
       ∀ k ∈ toks, SegOKC k ∧ ∃ t ∈ ts, FromTokenC p t k := by
   obtain ⟨toks, hr, hf⟩ := run_toksC hp ts hwf {}
+  have hb : p.sanitizeTokens ts = renderAll toks := by
+    unfold Policy.sanitizeTokens
+    rw [hr, flatten_map_render]
+  refine ⟨toks, hb, ?_, hf⟩
+  rw [hb]
+  exact tokenize_renderAllC toks fun k hk => (hf k hk).1
+
+/-- the hypothesis of the round trip for one run: no AllowUnsafe, and every raw-text tag *of this input*
+    names an element the policy does not allow (so no raw-text tag is written) -/
+structure PlainOn (p : Policy) (ts : List Token) : Prop where
+  noUnsafe : p.allowUnsafe = false
+  noRaw : ∀ t ∈ ts, isRawTagName t.data = true → allowsElement p t.data = false
+
+theorem PlainC.on {p : Policy} (h : PlainC p) (ts : List Token) : PlainOn p ts := ⟨h.noUnsafe, fun t _ => h.noRaw t.data⟩
+
+theorem run_toksOn {p : Policy} (hu : p.allowUnsafe = false) (ts : List Token) (hwf : ∀ t ∈ ts, TokWF t)
+    (hraw : ∀ t ∈ ts, isRawTagName t.data = true → allowsElement p t.data = false) :
+    ∀ st, ∃ toks : List Token, (p.run st ts).1.map (·.data) = toks.map Token.render ∧
+      ∀ k ∈ toks, SegOKC k ∧ ∃ t ∈ ts, FromTokenC p t k := by
+  induction ts with
+  | nil => intro st; exact ⟨[], by simp [Policy.run], by simp⟩
+  | cons t ts ih =>
+    intro st
+    unfold Policy.run
+    split
+    · exact ⟨[], by simp, by simp⟩
+    · rename_i st' ws hs
+      obtain ⟨k1, hk1, hf1⟩ := emit_toksOn hu (hraw t (by simp)) (hwf t (by simp)) (step_emit p st t st' ws hs)
+      obtain ⟨k2, hk2, hf2⟩ := ih (fun x hx => hwf x (by simp [hx])) (fun x hx => hraw x (by simp [hx])) st'
+      refine ⟨k1 ++ k2, by simp [hk1, hk2], ?_⟩
+      intro k hk
+      simp only [List.mem_append] at hk
+      rcases hk with h | h
+      · exact ⟨(hf1 k h).1, t, by simp, (hf1 k h).2⟩
+      · obtain ⟨hs', t', ht', hft⟩ := hf2 k h
+        exact ⟨hs', t', by simp [ht'], hft⟩
+
+/-- **the round trip for one run**: for a policy without AllowUnsafe — raw-text elements on its allowlist or
+    not — and a token list none of whose raw-text tags the policy allows, the bytes written are the
+    serialisation of a list of texts, plain tags and comments, and the tokenizer reads exactly that list back -/
+theorem sanitizeTokens_roundtripOn {p : Policy} (ts : List Token) (hp : PlainOn p ts) (hwf : ∀ t ∈ ts, TokWF t) :
+    ∃ toks : List Token, p.sanitizeTokens ts = renderAll toks ∧
+      tokenize (p.sanitizeTokens ts) = coalesce [] (toks.map reread) ∧
+      ∀ k ∈ toks, SegOKC k ∧ ∃ t ∈ ts, FromTokenC p t k := by
+  obtain ⟨toks, hr, hf⟩ := run_toksOn hp.noUnsafe ts hwf hp.noRaw {}
   have hb : p.sanitizeTokens ts = renderAll toks := by
     unfold Policy.sanitizeTokens
     rw [hr, flatten_map_render]
